@@ -21,6 +21,19 @@ func init() {
 			{ID: "C08.R2", Text: "second request: startSeqNo = snapStartSeqNo = snapEndSeqNo ← rollbackSeqNo, endSeqNo ← latestSeqNo, own vbID/observer/options", Run: c08r2},
 			{ID: "C08.R3", Text: "branch selection: vbUUID of the lowest-index (newest) failover entry with SeqNo ≤ R, 0 if none (0..4 entries, exhaustive)", Run: c08r3},
 			{ID: "C08.R4", Text: "rollback success callback: SetVbUUID(failOverLogs[0].VbUUID) and SetCatchup(failedSeqNo) under err==nil only", Run: c08r4},
+			{ID: "C08.R6", Text: "both stream requests report the server's answer: the open-stream callbacks' error reaches the wrapper's result on every error path (same rule as C20.R3 on the two OpenStream sites)", Run: func(c *Ctx, id string) {
+				n := 0
+				for _, s := range asyncSites(c.W) {
+					if s.Op == "OpenStream" {
+						n++
+						c.see(s.Fn)
+						checkOutcomeIsServers(c, id, s)
+					}
+				}
+				if n < 2 {
+					c.Undecided(id, "open-sites", 0, "only %d DCPAgent.OpenStream call sites", n)
+				}
+			}},
 			{ID: "C08.R5", Text: "catch-up filter: skip ⇔ need ∧ seq ≤ F; need' = need ∧ seq < F; SetCatchup stores F and arms the filter", Run: c08r5},
 		},
 	})
@@ -339,6 +352,7 @@ func c08r5(c *Ctx, id string) {
 	}, "catchupSeqNo ← parameter; isCatchupNeed ← true")
 	// control events never consult (and so never consume) the filter; data events consult it exactly once
 	gateOAE(c, id, oi)
+	gateArgsRule(c, id, oi)
 	// no other writer of the two fields
 	for _, fname_ := range []string{"catchupSeqNo", "isCatchupNeed"} {
 		f := w.Field("couchbase", oi.typ.Obj().Name(), fname_)
